@@ -678,6 +678,9 @@ func TestRegress(t *testing.T) { checker.Regress(t) }
 
 func TestProp(t *testing.T) { checker.Prop(t, genCase) }
 
+// FuzzProp: the same generator driven by the native coverage-guided fuzzer (thorough tier only).
+func FuzzProp(f *testing.F) { checker.Fuzz(f, genCase) }
+
 // TestGrid: every scalar kind (and string) alone and one level inside every container.
 func TestGrid(t *testing.T) {
 	vk.SetPhase("grid")
